@@ -200,6 +200,40 @@ class Repo(object):
                     src = f.read()
                 self.modules[name] = Module(name, path, rel, src)
         self._ext = None
+        self.canonicalised_calls = self._canonicalise_calls()
+
+    def _canonicalise_calls(self):
+        """Keyword arguments of calls to resolved repository functions are moved into their positional slots when that
+        leaves no gap (f(a, c=z, b=y) -> f(a, y, z) for def f(a, b, c)), so that rules see one spelling of a call whether
+        a maintainer writes an argument positionally or by keyword.  Argument evaluation order is irrelevant to every
+        rule here.  Calls with * / ** arguments, unresolved callees, methods and constructors are left alone."""
+        n = 0
+        for m in self.modules.values():
+            for c in ast.walk(m.tree):
+                if not (isinstance(c, ast.Call) and isinstance(c.func, ast.Name)) or not c.keywords:
+                    continue
+                if any(isinstance(a, ast.Starred) for a in c.args) or any(k.arg is None for k in c.keywords):
+                    continue
+                tgt = self.resolve(m.name, c.func.id)
+                if tgt is None or getattr(tgt, "kind", None) != "func" or tgt.node is None:
+                    continue
+                ta = tgt.node.args
+                if ta.posonlyargs or ta.vararg:
+                    continue
+                pos = [a.arg for a in ta.args]
+                kw = dict((k.arg, k) for k in c.keywords)
+                if len(kw) != len(c.keywords) or len(c.args) > len(pos):
+                    continue
+                i = len(c.args)
+                moved = False
+                while i < len(pos) and pos[i] in kw:
+                    k = kw.pop(pos[i])
+                    c.args.append(k.value)
+                    c.keywords.remove(k)
+                    i += 1
+                    moved = True
+                n += moved
+        return n
 
     # ---- lookup ----------------------------------------------------------
     def mod(self, name):
